@@ -12,6 +12,7 @@ import HaqqModel.Driver.C18
 import HaqqModel.Driver.C14
 import HaqqModel.Driver.C07
 import HaqqModel.Driver.C08
+import HaqqModel.Driver.C05
 
 open Haqq.Driver
 
@@ -19,6 +20,7 @@ structure All where
   c12 : C12.St := {}
   c09 : C09.St := {}
   c13 : C13.St := {}
+  c05 : C05.St := {}
 
 def stepLine (st : All) (line : String) : All × String :=
   -- everything from a "#" token on is harness-only annotation
@@ -33,6 +35,7 @@ def stepLine (st : All) (line : String) : All × String :=
   | "C14" :: rest => (st, C14.step rest)
   | "C07" :: rest => (st, C07.step rest)
   | "C08" :: rest => (st, C08.step rest)
+  | "C05" :: rest => let (s, o) := C05.step st.c05 rest; ({ st with c05 := s }, o)
   | "C13" :: rest => let (s, o) := C13.step st.c13 rest; ({ st with c13 := s }, o)
   | _ => (st, "bad-op")
 
